@@ -607,6 +607,23 @@ class Pure:
                 return Num(trunc_real(to_real(args[0])), "int")
             if name == "float":
                 return Num(to_real(args[0]), "real")
+            if name == "is_seq":
+                return BoolN(isinstance(args[0], L.RSeq))
+            if name == "std_of":
+                v = args[0]
+                A = L.array_term(self.I, self.st, v)
+                return Num(STD(A, v.length), "real")
+            if name == "n_normal_calls":
+                return IntN(len(self.st.ghost.get("normal_calls", [])))
+            if name in ("normal_loc", "normal_scale", "normal_size", "normal_result"):
+                k = conc_int(to_int(args[0]))
+                calls = self.st.ghost.get("normal_calls", [])
+                if k is None or k >= len(calls):
+                    return Num(z3.RealVal(0), "real") if name != "normal_result" else L.RSeq(z3.IntVal(0), lambda i: RealN(0), "ndarray", "real")
+                v = calls[k][name[7:]]
+                if name == "normal_size":
+                    return Num(v, "int")
+                return freeze(self.I, v, self.st.heap)
             if name == "is_tuple":
                 return BoolN(isinstance(args[0], TupV))
             if name == "is_none":
@@ -642,6 +659,10 @@ class Pure:
                     raise EngineError(f"spec helper {name}: arity")
                 return self.ev(h.expr, dict(zip(h.args, args)))
             raise EngineError(f"spec: unknown function {name} at {self.file}:{node.lineno}")
+        fv = self.ev(f, env)
+        if isinstance(fv, FunV) and fv.kind == "uninterp":
+            args = [self.ev(a, env) for a in node.args]
+            return Num(fv.fn(*[to_real(a) for a in args]), "real")
         raise EngineError("spec: call of a non-name")
 
 
@@ -715,7 +736,10 @@ def verify_function(db, modules, qual, bounded=False, sizes=None):
                 finish_raise(db, I, c, s, env, pre_env, ctl[1], combo_tag)
             else:
                 raise EngineError("break/continue at function level")
+        for o in I.obligations:
+            o.lemmas = list(c.opts.get("lemmas", []))
         res.obligations.extend(I.obligations)
+        res.lemmas_used = set(c.opts.get("lemmas", []))
         res.inlined |= I.inline_log
         res.lib_used |= I.lib_used
         res.assumed |= I.assumed
@@ -778,7 +802,16 @@ def finish_return(db, I, c, s, env, pre_env, retv, tag):
         I.oblige(s, db.eval_clause(I, s, cl, e, env_now=now_env), "hint", name, wh)
     for name in c.ensures:
         cl = db.clause(c, name)
-        g = db.eval_clause(I, s, cl, e, env_now=now_env)
+        try:
+            g = db.eval_clause(I, s, cl, e, env_now=now_env)
+        except Unbound:
+            raise
+        except EngineError as err:
+            # the clause cannot even be evaluated on what this path returns (e.g. None instead of an array):
+            # that is a violated postcondition on this path, not a checker error
+            g = z3.BoolVal(False)
+            I.oblige(s, g, "ensures", name, wh + f"<result of unexpected type: {str(err)[:80]}>", assume=False)
+            continue
         I.oblige(s, g, "ensures", name, wh, assume=False)
     if not c.opts.get("no_frame"):
         for path, g in frame_goals(db, I, c, s, env):
